@@ -61,7 +61,7 @@ func (area) Run(c *core.Ctx) error {
 		case 6:
 			fixedOffsetCase(c, r)
 		case 7:
-			externalCase(c, r)
+			externalCase(c, r, i)
 		case 8:
 			malformedCase(c, r)
 		case 9:
@@ -883,6 +883,70 @@ func tsdCase(c *core.Ctx, r *rand.Rand) {
 				}
 			}
 		}
+		// Seek oracle pass: after Seek(s) on a re-armed decoder, slot-addressed reads of every slot >= s
+		// must equal the sequential decode (theorems tsd_seek_then_read / tsd_seek_gap).
+		if len(b.mask) >= 2 && b.mask[0] && r.Intn(2) == 0 {
+			c.Branch("tsd-seek-oracle-pass")
+			dense := 0 // length of the run of present slots at the front
+			for dense < len(b.mask) && b.mask[dense] {
+				dense++
+			}
+			j := 1 + r.Intn(len(b.mask)-1) // target index 1..n-1
+			if dense < len(b.mask) && r.Intn(3) > 0 && dense >= 1 {
+				j = 1 + r.Intn(dense) // mostly inside / right after the dense run: Seek succeeds
+				if j > len(b.mask)-1 {
+					j = len(b.mask) - 1
+				}
+			}
+			s := b.start + j
+			resetDecoder(c, dec, b)
+			ok := false
+			guard(c, fmt.Sprintf("td seek 0 %d", s), func() string { ok = dec.Seek(uint16(s)); return fmt.Sprintf("%v", ok) })
+			from := s
+			if j <= dense {
+				c.Branch("tsd-seek-dense-prefix")
+				if !ok {
+					c.Fail("tsd-seek-then-read", fmt.Sprintf("block [%d,%d]: Seek(%d) is false although every slot before it holds a value", b.start, b.end(), s))
+				}
+			} else {
+				c.Branch("tsd-seek-across-gap")
+				from = b.start + dense + 1 // Seek gave up right after the first empty slot
+				if ok {
+					from = s
+				}
+			}
+			useGet := r.Intn(2) == 0
+			for q := from; q <= b.end(); q++ {
+				want, on := b.at(q)
+				if useGet {
+					guard(c, fmt.Sprintf("td gv 0 %d", q), func() string {
+						f, has := dec.GetValue(uint16(q))
+						if has != on || (on && math.Float64bits(f) != want) {
+							c.Fail("tsd-seek-then-read", fmt.Sprintf("block [%d,%d] after Seek(%d)=%v: slot %d reads (%v,%016x), sequential decode has (%v,%016x)", b.start, b.end(), s, ok, q, has, math.Float64bits(f), on, want))
+						}
+						if !has {
+							return "false"
+						}
+						return fmt.Sprintf("true %d", math.Float64bits(f))
+					})
+				} else {
+					has := false
+					guard(c, fmt.Sprintf("td hvs 0 %d", q), func() string { has = dec.HasValueWithSlot(uint16(q)); return fmt.Sprintf("%v", has) })
+					if has != on {
+						c.Fail("tsd-seek-then-read", fmt.Sprintf("block [%d,%d] after Seek(%d)=%v: slot %d presence %v, sequential decode has %v", b.start, b.end(), s, ok, q, has, on))
+					}
+					if has {
+						guard(c, "td val 0", func() string {
+							v := dec.Value()
+							if on && v != want {
+								c.Fail("tsd-seek-then-read", fmt.Sprintf("block [%d,%d] after Seek(%d)=%v: slot %d reads %016x, sequential decode has %016x", b.start, b.end(), s, ok, q, v, want))
+							}
+							return fmt.Sprintf("%d", v)
+						})
+					}
+				}
+			}
+		}
 		// a third, free-form pass: Seek / out-of-order slot reads (correspondence only)
 		if r.Intn(3) == 0 {
 			c.Branch("tsd-seek-pass")
@@ -1353,7 +1417,7 @@ func genBitmap(r *rand.Rand) *roaring.Bitmap {
 	return bm
 }
 
-func externalCase(c *core.Ctx, r *rand.Rand) {
+func externalCase(c *core.Ctx, r *rand.Rand, caseIdx int) {
 	c.NonTrivial()
 	// roaring bitmap marshal / unmarshal into a reused target
 	target := roaring.New()
@@ -1393,6 +1457,17 @@ func externalCase(c *core.Ctx, r *rand.Rand) {
 	type chunk struct{ comp, plain []byte }
 	var chunks []chunk
 	nChunks := 2 + r.Intn(3)
+	// large chunks (replication chunks are bounded by configuration, not by the codec): sizes around
+	// 1 MiB. Quick: one chunk of 1 MiB+1 in the first external case; thorough: 1 MiB-1, 1 MiB, 1 MiB+1
+	// and 3 MiB+17 in every 7th external case.
+	var bigSizes []int
+	switch {
+	case c.Tier == "thorough" && (caseIdx/kinds)%7 == 0:
+		bigSizes = []int{1<<20 - 1, 1 << 20, 1<<20 + 1, 3<<20 + 17}
+	case caseIdx == 7:
+		bigSizes = []int{1<<20 + 1}
+	}
+	nChunks += len(bigSizes)
 	for k := 0; k < nChunks; k++ {
 		c.Branch("snappy-roundtrip")
 		var plain []byte
@@ -1403,6 +1478,31 @@ func externalCase(c *core.Ctx, r *rand.Rand) {
 				}
 			}()
 			rows := 1 + r.Intn(5)
+			if k >= 1 && k-1 < len(bigSizes) {
+				// one big chunk, written as rows of at most 64 KiB, half of them compressible
+				c.Branch("snappy-chunk-around-1MiB")
+				left := bigSizes[k-1]
+				for left > 0 {
+					m := 1 + r.Intn(65536)
+					if m > left {
+						m = left
+					}
+					row := make([]byte, m)
+					if r.Intn(2) == 0 {
+						r.Read(row)
+					} else {
+						for i := range row {
+							row[i] = byte(i % 251)
+						}
+					}
+					if _, err := w.Write(row); err != nil {
+						c.Fail("snappy-roundtrip", "write error: "+err.Error())
+					}
+					plain = append(plain, row...)
+					left -= m
+				}
+				rows = 0
+			}
 			for j := 0; j < rows; j++ {
 				row := make([]byte, 1+r.Intn(3000))
 				if r.Intn(2) == 0 {
@@ -1427,8 +1527,10 @@ func externalCase(c *core.Ctx, r *rand.Rand) {
 				c.Fail("snappy-roundtrip", "uncompress error: "+err.Error())
 				return
 			}
-			if !bytes.Equal(out, plain) {
-				c.Fail("snappy-roundtrip", fmt.Sprintf("chunk %d: %d plain bytes, %d after round trip", k, len(plain), len(out)))
+			if len(out) != len(plain) {
+				c.Fail("snappy-roundtrip-length", fmt.Sprintf("chunk %d: %d plain bytes written, Uncompress returned %d bytes with err == nil", k, len(plain), len(out)))
+			} else if !bytes.Equal(out, plain) {
+				c.Fail("snappy-roundtrip", fmt.Sprintf("chunk %d: %d plain bytes differ after the round trip", k, len(plain)))
 			}
 			if len(prevCopy) > 0 && !bytes.Equal(prevOut, prevCopy) {
 				// not a loss at the time of the call (callers consume the block before the next
